@@ -15,16 +15,16 @@ ASSUMPTIONS = ["invariance of whole outputs under reverse-complementing reads is
 
 def run(F, rep):
     rep.engines.update(["E2-DT", "E2-BV", "E1"])
-    dt_tables.hash_step_table(F, rep, "C06.1")
-    dt_tables.graph_step_table(F, rep, "C06.1")
-    dt_graph.find_link_table(F, rep, "C06.5")
-    dt_filter.filter_tables(F, rep, "C06.1f")
-    dt_graph.censor_tables(F, rep, "C06.1c")
-    dt_compress.entry_points_table(F, rep, "C06.6")
-    dt_compress.hash_driver_table(F, rep, "C06.6")
-    dt_compress.graph_driver_table(F, rep, "C06.6")
-    dt_graph.combine_table(F, rep, "C06.6")
-    common.run_kmer_lemmas(F, rep, {"canon", "rc"})
-    lemmas.exts_lemmas(F, rep)
+    rep.run(dt_tables.hash_step_table, F, rep, "C06.1")
+    rep.run(dt_tables.graph_step_table, F, rep, "C06.1")
+    rep.run(dt_graph.find_link_table, F, rep, "C06.5")
+    rep.run(dt_filter.filter_tables, F, rep, "C06.1f")
+    rep.run(dt_graph.censor_tables, F, rep, "C06.1c")
+    rep.run(dt_compress.entry_points_table, F, rep, "C06.6")
+    rep.run(dt_compress.hash_driver_table, F, rep, "C06.6")
+    rep.run(dt_compress.graph_driver_table, F, rep, "C06.6")
+    rep.run(dt_graph.combine_table, F, rep, "C06.6")
+    rep.run(common.run_kmer_lemmas, F, rep, {"canon", "rc"})
+    rep.run(lemmas.exts_lemmas, F, rep)
     # reads handed over as reverse-complemented views: the view's k-mers are the reverse complements of the substring's k-mers
-    dt_seq.slice_view_tables(F, rep, "C06.7")
+    rep.run(dt_seq.slice_view_tables, F, rep, "C06.7")
